@@ -44,6 +44,7 @@ fn generate(prop: &str, seed: u64, thorough: bool) -> Option<Plan> {
         "C06" => Some(scen_adv::gen_adv("C06", seed, thorough)),
         "C07" => Some(scen_adv::gen_adv("C07", seed, thorough)),
         "C08" => Some(scen_c08::gen_c08(seed, thorough)),
+        "C09" => Some(scen_tcp::gen_c09(seed, thorough)),
         "C10" => Some(scen_c10::gen_c10(seed, thorough)),
         "C11model" => Some(scen_pw::gen_c11_model(seed, thorough)),
         "C11" => Some(scen_udp::gen_c11_system(seed, thorough)),
@@ -59,6 +60,7 @@ fn generate(prop: &str, seed: u64, thorough: bool) -> Option<Plan> {
 fn execute(plan: &Plan) -> Outcome {
     match plan.scenario.as_str() {
         "tcp-system" => scen_tcp::execute_c01(plan),
+        "independence" => scen_tcp::execute_c09(plan),
         "link-seg" => scen_link::execute_c04(plan),
         "link-tamper" => scen_link::execute_c05(plan),
         "local-hs" => scen_local::execute_c13(plan),
